@@ -76,6 +76,9 @@ def run(c):
         if b.error:
             c.hist("build", "rejected" if b.error.startswith("rejected") else "failed")
             if not b.error.startswith("rejected"):
+                c.fail("e2e-build", "design %d could not be generated/built: %s" % (b.index, b.error[:300]),
+                       input={"seed": c.seed, "index": b.index, "flags": getattr(b, "flags", None)}, design=b.design, expected="builds", actual=b.error)
+            if not b.error.startswith("rejected"):
                 c.hist("build-failure", b.error[:80])
             b.cleanup()
             continue
@@ -182,7 +185,7 @@ def judge(b, s, m, eff, cl, cmd, model, o, cred_model):
     # credentials and scopes, per callback
     hdr_count = {}
     for attr, info in cl.items():
-        if info.get("header"):
+        if info.get("header") and info["kind"] not in ("username", "password"):
             hdr_count[info["header"]] = hdr_count.get(info["header"], 0) + 1
     if any(k in ("username", "password") for k in (i["kind"] for i in cl.values())):
         hdr_count["Authorization"] = hdr_count.get("Authorization", 0) + 1
